@@ -394,7 +394,9 @@ static void fi_gen(Rng &rng, Plan &plan, bool thorough)
 		plan.setp(p + "empty_blocks", rng.chance(300) ? 1 : 0);
 		static const int checks[] = { LZMA_CHECK_NONE, LZMA_CHECK_CRC32, LZMA_CHECK_CRC64, LZMA_CHECK_SHA256 };
 		plan.setp(p + "check", checks[rng.below(4)]);
-		plan.setp(p + "pad", (int64_t)(4 * rng.below(9)));
+		// Stream Padding: small, around the file-info decoder's 8 KiB window, and several windows long
+		static const int64_t pads[] = { 8188, 8192, 8196, 12000, 16384, 20000 };
+		plan.setp(p + "pad", rng.chance(600) ? (int64_t)(4 * rng.below(9)) : rng.chance(500) ? pads[rng.below(6)] : (int64_t)(4 * rng.below(7000)));
 	}
 	plan.setp("read_style", (int64_t)rng.below(4));
 	plan.setp("read_seed", (int64_t)(rng.next() >> 2));
